@@ -62,6 +62,14 @@ func (e *vhSM) check(groups int) {
 			if en.first {
 				// start-up or restart: the process comes back in the round it had stored
 				verifrt.Assert(en.life == 1 || !en.hr.less(en.prev), "R6:restart-does-not-go-back")
+				if en.life > 1 {
+					if en.prevFinal {
+						// the height was finalized before the process died: it is over
+						verifrt.Assert(en.hr.h == en.prev.h+1 && en.hr.r == 0, "R2:restart-after-a-stored-finalization-enters-the-next-height-at-round-0")
+					} else {
+						verifrt.Assert(en.hr == en.prev, "R6:restart-resumes-in-the-round-it-was-in")
+					}
+				}
 				continue
 			}
 			verifrt.Assert(en.prev.less(en.hr), "R6:entered-rounds-strictly-increase")
@@ -81,6 +89,7 @@ func (e *vhSM) check(groups int) {
 			}
 		}
 		for _, f := range e.finReqs[c.fins:] {
+			verifrt.Assert(!f.again, "R1:no-finalize-request-for-a-height-whose-finalization-is-stored")
 			rd := e.rounds[f.at]
 			hash := string(f.req.Header.Hash)
 			if rd != nil && rd.catchupCH != nil {
